@@ -2,7 +2,7 @@
 from .. import nf, dims
 from ..nf import Poly, Tup, Const, NONE, TRUE, FALSE
 from ..model import AnalysisError
-from ..rules import run as analyse, returns, fmt, is_app, S, C, pair, mentions_sym
+from ..rules import conds_str, run as analyse, returns, fmt, is_app, S, C, pair, mentions_sym
 from . import extent_rules as X
 from .prop_flow import DftFlow, configs, wf_attr, bound_of, WF
 
@@ -155,9 +155,13 @@ def field_accumulation(chk, repo, clause):
                                   ('wavefront.Wavefront.intensity', TRUE, 'float')):
         f, paths, _ = analyse(repo, key)
         rets = returns(paths)
-        if len(rets) != 1:
-            raise AnalysisError(f'{key}: expected a single path')
-        p = rets[0]
+        if not rets:
+            raise AnalysisError(f'{key}: no returning path')
+        shortcut = [q for q in rets if not q.calls('field.insert')]
+        chk.ob(clause, 'D-zero-init', key, 'every path places the fields through insert (at their offsets)', not shortcut,
+               '; '.join(f'a path returns {fmt(q.ret)[:80]} [{conds_str(q)[-80:]}]' for q in shortcut[:2]) or f'{len(rets)} path(s)',
+               f.loc(shortcut[0].node) if shortcut else f.loc())
+        p = [q for q in rets if q.calls('field.insert')][0] if len(shortcut) < len(rets) else rets[0]
         ok_zero = ok_only = False
         det = ''
         from .common import loop_accumulator
